@@ -201,3 +201,184 @@ func CheckResend(o Obs, r *core.Rand) {
 		}
 	}
 }
+
+// One stream object used in both directions at once, which is how a session
+// uses it (Send and Receive read in one goroutine and write in others). The
+// interleaving is made, not hoped for: the reader hands RecvMsg the header
+// and a part of the body and stalls in its next Read until a SendMsg on the
+// same object has completed; in the other half the writer stalls in the
+// middle of its Write (it may look at the buffer for the whole call) until a
+// RecvMsg on the same object has completed. What is received and what is
+// written must be what was sent, whatever the other direction did meanwhile.
+
+const SigDuplex = "duplex-directions-interfere"
+
+type stallReader struct {
+	data    []byte
+	cut     int
+	stalled chan struct{}
+	resume  chan struct{}
+	once    sync.Once
+}
+
+func (s *stallReader) Read(b []byte) (int, error) {
+	if s.cut > 0 {
+		n := copy(b, s.data[:s.cut])
+		s.data, s.cut = s.data[n:], s.cut-n
+		return n, nil
+	}
+	s.once.Do(func() { close(s.stalled); <-s.resume })
+	if len(s.data) == 0 {
+		return 0, io.EOF
+	}
+	n := copy(b, s.data)
+	s.data = s.data[n:]
+	return n, nil
+}
+
+type stallWriter struct {
+	out     []byte
+	stallAt int // stall in the first Write that carries at least this many bytes
+	stalled chan struct{}
+	resume  chan struct{}
+	once    sync.Once
+}
+
+func (w *stallWriter) Write(p []byte) (int, error) {
+	if len(p) >= w.stallAt {
+		half := len(p) / 2
+		w.out = append(w.out, p[:half]...)
+		w.once.Do(func() { close(w.stalled); <-w.resume })
+		w.out = append(w.out, p[half:]...)
+		return len(p), nil
+	}
+	w.out = append(w.out, p...)
+	return len(p), nil
+}
+
+func duplexPacket(r *core.Rand, id uint32) *types.Packet {
+	switch r.Intn(3) {
+	case 0:
+		return &types.Packet{Type: types.PACKET_REQ, ID: id}
+	case 1:
+		return &types.Packet{Type: types.PACKET_DATA, ID: id, Data: r.Bytes(core.Pick(r, []int{1, 500, 1000, 5000, PoolBuf - 10, PoolBuf + 10, 70000}))}
+	default:
+		return &types.Packet{Type: types.PACKET_STAT, Stat: &types.Stat{Path: asciiName(r, r.Range(1, 300)), Mode: uint32(r.Intn(1 << 12)), Size: int64(r.Intn(1 << 30)), Linkname: asciiName(r, r.Intn(50))}}
+	}
+}
+
+func asciiName(r *core.Rand, n int) string {
+	b := r.Bytes(n)
+	for i := range b {
+		b[i] = 'a' + b[i]%26
+	}
+	return string(b)
+}
+
+func encodeFrame(p *types.Packet) []byte {
+	body, _ := p.MarshalVT()
+	return append(Header(nil, uint32(len(body))), body...)
+}
+
+// CheckDuplex runs both halves once.
+func CheckDuplex(o Obs, r *core.Rand) {
+	in, out := duplexPacket(r, 7), duplexPacket(r, 9)
+	for in.Type == types.PACKET_REQ { // the incoming frame needs a body to be cut in
+		in = duplexPacket(r, 7)
+	}
+	// half one: RecvMsg stalled inside a frame, SendMsg meanwhile
+	{
+		frame := encodeFrame(in)
+		cut := 4 + r.Range(1, len(frame)-5)
+		if r.P(1, 3) {
+			cut = r.Range(1, 4) // inside the header
+		}
+		sr := &stallReader{data: append(frame, encodeFrame(out)...), cut: cut, stalled: make(chan struct{}), resume: make(chan struct{})}
+		w := &bufWriter{}
+		st := util.NewProtoStream(context.Background(), sr, w)
+		var got, got2 types.Packet
+		var rerr, rerr2 error
+		done := make(chan struct{})
+		go func() {
+			defer close(done)
+			rerr = st.RecvMsg(&got)
+			if rerr == nil {
+				rerr2 = st.RecvMsg(&got2)
+			}
+		}()
+		select {
+		case <-sr.stalled:
+		case <-done: // (a RecvMsg that gave up before asking for the rest)
+		}
+		serr := st.SendMsg(out)
+		close(sr.resume)
+		<-done
+		o.Count("duplex_receives_stalled_inside_a_frame", 1)
+		switch {
+		case serr != nil:
+			o.Violate(SigDuplex, "SendMsg while a RecvMsg of the same stream waits inside a frame failed: %v", serr)
+		case rerr != nil:
+			o.Violate(SigDuplex, "RecvMsg of a frame delivered in two pieces (cut after %d of %d bytes) failed after a SendMsg on the same stream ran in between: %v", cut, len(frame), rerr)
+		case PacketDiff(in, &got) != "":
+			o.Violate(SigDuplex, "RecvMsg of a frame delivered in two pieces (cut after %d of %d bytes) with a SendMsg on the same stream in between: %s", cut, len(frame), PacketDiff(in, &got))
+		case rerr2 != nil || PacketDiff(out, &got2) != "":
+			o.Violate(SigDuplex, "the frame after one that was received around a SendMsg of the same stream: err=%v %s", rerr2, PacketDiff(out, &got2))
+		default:
+			duplexWritten(o, w.b, out, "while a RecvMsg waited inside a frame")
+		}
+	}
+	// half two: SendMsg stalled inside its Write, RecvMsg meanwhile
+	{
+		sw := &stallWriter{stallAt: 2, stalled: make(chan struct{}), resume: make(chan struct{})}
+		st := util.NewProtoStream(context.Background(), &sliceReader{b: encodeFrame(in)}, sw)
+		var serr error
+		done := make(chan struct{})
+		go func() { defer close(done); serr = st.SendMsg(out) }()
+		select {
+		case <-sw.stalled:
+		case <-done: // (a SendMsg that never wrote two bytes at once)
+		}
+		var got types.Packet
+		rerr := st.RecvMsg(&got)
+		close(sw.resume)
+		<-done
+		o.Count("duplex_sends_stalled_inside_a_write", 1)
+		switch {
+		case serr != nil:
+			o.Violate(SigDuplex, "SendMsg whose Write was slow failed: %v", serr)
+		case rerr != nil:
+			o.Violate(SigDuplex, "RecvMsg while a SendMsg of the same stream is inside its Write failed: %v", rerr)
+		case PacketDiff(in, &got) != "":
+			o.Violate(SigDuplex, "RecvMsg while a SendMsg of the same stream is inside its Write: %s", PacketDiff(in, &got))
+		default:
+			duplexWritten(o, sw.out, out, "around a RecvMsg that ran while the Write was in progress")
+		}
+	}
+}
+
+type sliceReader struct{ b []byte }
+
+func (s *sliceReader) Read(p []byte) (int, error) {
+	if len(s.b) == 0 {
+		return 0, io.EOF
+	}
+	n := copy(p, s.b)
+	s.b = s.b[n:]
+	return n, nil
+}
+
+func duplexWritten(o Obs, written []byte, want *types.Packet, when string) {
+	bodies, tail, _, _ := ParseFrames(written)
+	if len(bodies) != 1 || len(tail) != 0 {
+		o.Violate(SigDuplex, "one SendMsg %s: a reference reader finds %d complete frames and %d trailing bytes", when, len(bodies), len(tail))
+		return
+	}
+	var v types.Packet
+	if err := v.UnmarshalVT(bodies[0]); err != nil {
+		o.Violate(SigDuplex, "the frame written %s does not decode: %v", when, err)
+		return
+	}
+	if d := PacketDiff(want, &v); d != "" {
+		o.Violate(SigDuplex, "the frame written %s holds another value than the packet sent: %s", when, d)
+	}
+}
